@@ -497,7 +497,11 @@ fn gen(rng: &mut Rng, _i: u64) -> String {
 			let mut tail = 0usize;
 			syn.lay(&items, 0, rng, &mut tail);
 			let sec_size = (lay_off + syn.buf.len() + 0x40 + 0xff) & !0xff;
-			let mut spec = ImgSpec { pe64, e_lfanew: 0x80, soh: 0x200, soi: 0x1000 + sec_size as u32 + 0x1000, image_base, nrva: 16, dirs: vec![(0, 0); 16], opt_size: 0, nsec_field: 1,
+			// a third of the mapped views are REBASED: the header keeps another ImageBase, the view is moved to `image_base`
+			// with set_base_address, and every absolute pointer of the layout is relative to `image_base`
+			let rebased = !file && rng.chance(1, 3);
+			let hdr_base: u64 = if rebased { if pe64 { 0x1_8000_0000 } else { 0x1000_0000 } } else { image_base };
+			let mut spec = ImgSpec { pe64, e_lfanew: 0x80, soh: 0x200, soi: 0x1000 + sec_size as u32 + 0x1000, image_base: hdr_base, nrva: 16, dirs: vec![(0, 0); 16], opt_size: 0, nsec_field: 1,
 				secs: vec![Sec { name: *b".text\0\0\0", va: sec_va, vs: sec_size as u32, prd: sec_prd, srd: sec_size as u32, chars: 0x6000_0020 }], checksum: 0, magic: if pe64 { 0x20b } else { 0x10b } };
 			spec.opt_size = spec.std_opt_size();
 			let len = sec_prd as usize + sec_size;
@@ -516,9 +520,9 @@ fn gen(rng: &mut Rng, _i: u64) -> String {
 			// one case in eight goes without the generator's AST: the semantic oracle then runs on the AST the independent reader
 			// of Spec/PatRead.v finds in the text
 			let ast_field = if rng.chance(1, 8) { String::new() } else { format!(" ast={}", join(&toks, ",")) };
-			format!("exec fmt={} file={} {} soh={} soi={} base={} secs={} text={} atoms=- cursor={} slots={} expect={} saves={}{}",
+			format!("exec fmt={} file={} {} soh={} soi={} base={} secs={} text={} atoms=- cursor={} slots={} expect={} saves={}{}{}",
 				if pe64 { 64 } else { 32 }, file as u8, img.encode(), spec.soh, spec.soi, image_base, secs_field(&spec.secs), hex(text.as_bytes()),
-				sec_va + lay_off as u32, slots, expect, join(&syn.saves, ","), ast_field)
+				sec_va + lay_off as u32, slots, expect, join(&syn.saves, ","), ast_field, if rebased { " rebase=1" } else { "" })
 		},
 	}
 }
@@ -550,11 +554,13 @@ fn run(case: &str) -> String {
 	let slots: usize = field(case, "slots").parse().unwrap();
 	let mut save = vec![0x5555_5555u32; slots];
 	let file = field(case, "file") == "1";
+	let rebase = case.contains(" rebase=1");
+	let vbase: u64 = if rebase { field(case, "base").parse().unwrap() } else { 0 };
 	let ok = match (field(case, "fmt"), file) {
 		("32", true) => { use pe32::Pe; pe32::PeFile::from_bytes(b).map(|f| f.scanner().exec(cursor, &atoms, &mut save)) },
-		("32", false) => { use pe32::Pe; pe32::PeView::from_bytes(b).map(|f| f.scanner().exec(cursor, &atoms, &mut save)) },
+		("32", false) => { use pe32::Pe; pe32::PeView::from_bytes(b).map(|f| { let f = if rebase { f.set_base_address(vbase as u32) } else { f }; f.scanner().exec(cursor, &atoms, &mut save) }) },
 		("64", true) => { use pe64::Pe; pe64::PeFile::from_bytes(b).map(|f| f.scanner().exec(cursor, &atoms, &mut save)) },
-		_ => { use pe64::Pe; pe64::PeView::from_bytes(b).map(|f| f.scanner().exec(cursor, &atoms, &mut save)) },
+		_ => { use pe64::Pe; pe64::PeView::from_bytes(b).map(|f| { let f = if rebase { f.set_base_address(vbase) } else { f }; f.scanner().exec(cursor, &atoms, &mut save) }) },
 	};
 	match ok {
 		Ok(m) => format!("atoms={} match={} save={}", atoms_text(&atoms), m as u8, join(&save, ",")),
